@@ -60,6 +60,8 @@ API_STEPS = [
     "joint_mixture",
     "approximate",
     "kernels_on_edge_values",
+    "gaussian_constructors",
+    "linear_algebra_on_edge_matrices",
 ]
 
 
@@ -259,6 +261,19 @@ class ApiCtx:
         # values the array kernels special-case: exact zeros (both signs), infinities, huge and tiny magnitudes
         self.z_ij = self.leaf("z_ij", np.array([[0.0, 1.5, -0.0], [np.inf, 1e-300, 0.0]]))
         self.zneg_ij = self.leaf("zneg_ij", np.array([[-np.inf, -2.0, 0.0], [1e300, -1e-300, 3.0]]))
+        # matrices a caller may hold: a precision and its inverse computed numerically (symmetric up to
+        # round-off only), and matrices whose Cholesky factorisation fails (singular, zero, indefinite)
+        B = g.standard_normal((2, 3, 3))
+        Pm = B @ np.swapaxes(B, -1, -2) + 0.3 * np.eye(3)
+        self.prec_m = self.leaf("prec_m", Pm.copy())
+        self.cov_m = self.leaf("cov_m", np.linalg.inv(Pm))
+        self.prec_inv2 = self.leaf("prec_inv2", np.linalg.inv(np.linalg.inv(Pm)))
+        self.mean_m = self.leaf("mean_m", g.standard_normal((2, 3)))
+        v = g.standard_normal((3, 1))
+        self.sing_m = self.leaf("sing_m", v @ v.T)
+        self.zero_m = self.leaf("zero_m", np.zeros((2, 2)))
+        self.indef_m = self.leaf("indef_m", np.array([[1.0, 2.0], [2.0, 1.0]]))
+        self.ones_m = self.leaf("ones_m", np.ones((2, 3, 3)))
         # terms the session holds from the start: the catalogue operates on
         # previously obtained funsors (hash-consing hands the same objects back)
         for label, term in [
@@ -419,6 +434,49 @@ def api_step(name, ctx, env_values):
         out.append(ops.safesub(a, c))
         out.append(ops.safediv(a, c))
         out.append(ops.clamp(a, 0.5, 1.5))
+        return out
+    if name == "gaussian_constructors":
+        from funsor.gaussian import Gaussian
+
+        inputs = OD(i=f.Bint[2], x=f.Real, y=f.Reals[2])
+        out = []
+        for kw in (
+            dict(mean=ctx.mean_m, precision=ctx.prec_m),
+            dict(mean=ctx.mean_m, covariance=ctx.cov_m),
+            dict(mean=ctx.mean_m, precision=ctx.prec_inv2),
+            dict(info_vec=ctx.mean_m, precision=ctx.prec_m),
+            dict(info_vec=ctx.mean_m, covariance=ctx.cov_m),
+            dict(white_vec=ctx.mean_m, prec_sqrt=ctx.prec_sqrt),
+            dict(mean=ctx.mean_m, scale_tril=ctx.prec_sqrt),
+        ):
+            try:
+                gg = Gaussian(inputs=inputs, **kw)
+                out.append(gg)
+                out.append(gg.reduce(ops.logaddexp, "x"))
+                gg._precision, gg._covariance, gg._mean  # cached views of the parameters
+            except Exception:  # noqa
+                pass
+        return out
+    if name == "linear_algebra_on_edge_matrices":
+        out = []
+        with np.errstate(all="ignore"):
+            for arr in (ctx.sing_m, ctx.zero_m, ctx.indef_m, ctx.ones_m, ctx.prec_m, ctx.cov_m):
+                t = f.Tensor(arr)
+                for fn in ("cholesky", "cholesky_inverse", "logdet" if hasattr(ops, "logdet") else "cholesky", "transpose" if False else "cholesky"):
+                    for operand in (arr, t):
+                        try:
+                            r0 = getattr(ops, fn)(operand)
+                            if isinstance(r0, f.terms.Funsor):
+                                out.append(r0)
+                        except Exception:  # noqa
+                            pass
+            # a Gaussian built from a precision whose factorisation fails
+            try:
+                from funsor.gaussian import Gaussian
+
+                out.append(Gaussian(mean=ctx.mean_m, precision=ctx.ones_m, inputs=OD(i=f.Bint[2], x=f.Real, y=f.Reals[2])))
+            except Exception:  # noqa
+                pass
         return out
     if name == "kernels_on_edge_values":
         z, zn = ctx.T(ctx.z_ij, "ij"), ctx.T(ctx.zneg_ij, "ij")
